@@ -15,7 +15,7 @@ def log(*a):
 class Harness:
     """one harness = one entry function explored symbolically"""
     def __init__(self, name, pkg, files, models=('std', 'crypto'), summaries=(), panic_mode='ignore', sched=False,
-                 bounds='', load=None, timeout_s=600, go_mode='ignore', setup=None, must_reach=(), assumptions=(), split_depth=None, crypto_mode='alg'):
+                 bounds='', load=None, timeout_s=600, go_mode='ignore', setup=None, must_reach=(), assumptions=(), split_depth=None, crypto_mode='alg', unwind=None, salt_retries=False):
         self.name = name            # Go function name
         self.pkg = pkg              # package dir relative to the module root, e.g. 'cashu'
         self.files = list(files)    # harness sources under /verif/harness/<pkg>/
@@ -32,6 +32,8 @@ class Harness:
         self.assumptions = list(assumptions)
         self.split_depth = split_depth
         self.crypto_mode = crypto_mode
+        self.unwind = unwind
+        self.salt_retries = salt_retries
     @property
     def entry(self): return '%s/%s.%s' % (MOD, self.pkg, self.name)
 
@@ -83,6 +85,7 @@ def make_engine(ir, h, known):
     summaries.install(E, h.summaries)
     E.panic_mode = h.panic_mode
     E.crypto_mode = h.crypto_mode
+    E.unwind = h.unwind
     E.go_mode = h.go_mode
     if h.sched:
         for f in E.funcs.values():
@@ -226,7 +229,7 @@ def pkgname_of(h):
         if m: return m.group(1)
     raise RuntimeError('no package clause in ' + f)
 
-def replay(h, script, outdir, all_harnesses, timeout=300):
+def replay(h, script, outdir, all_harnesses, timeout=300, salt=0):
     """run the harness natively with the script; returns (labels_failed, panicked, raw output)"""
     os.makedirs(outdir, exist_ok=True)
     sp = os.path.join(outdir, 'script.json')
@@ -239,8 +242,8 @@ def replay(h, script, outdir, all_harnesses, timeout=300):
     json.dump({'Replace': ov}, open(ovp, 'w'), indent=1)
     cmd = ['go', 'test', '-vet=off', '-count=1', '-overlay', ovp, '-run', '^TestVerifReplay_%s$' % h.name, '-v', './' + h.pkg]
     open(os.path.join(outdir, 'replay.sh'), 'w').write(
-        '#!/bin/sh\n# replays this counterexample against the real build\ncd %s && VERIF_SCRIPT=%s GOFLAGS=-mod=mod GOPROXY=off %s\n' % (REPO, sp, ' '.join(cmd)))
-    env = dict(GOENV, VERIF_SCRIPT=sp)
+        '#!/bin/sh\n# replays this counterexample against the real build\ncd %s && VERIF_SCRIPT=%s VERIF_RAW_SALT=%d GOFLAGS=-mod=mod GOPROXY=off %s\n' % (REPO, sp, salt, ' '.join(cmd)))
+    env = dict(GOENV, VERIF_SCRIPT=sp, VERIF_RAW_SALT=str(salt))
     try:
         r = subprocess.run(cmd, env=env, cwd=REPO, capture_output=True, text=True, timeout=timeout)
         out = r.stdout + r.stderr
@@ -255,14 +258,20 @@ def confirm(h, v, outdir, all_harnesses):
     """does the counterexample reproduce on the real build?"""
     if any(isinstance(x, dict) and 'unrealisable' in x for x in v['script'].values()):
         return False, 'model value cannot be realised: %s' % [x for x in v['script'].values() if isinstance(x, dict) and 'unrealisable' in x][:1]
-    failed, panicked, out = replay(h, v['script'], outdir, all_harnesses)
-    if 'VERIF-REPLAY-DONE' not in out and not panicked:
-        return False, 'replay did not run: ' + out[-600:]
-    if v['kind'] == 'panic':
-        return (panicked is not None), ('panic reproduced: %s' % panicked if panicked else 'no panic natively')
-    if v['label'] in failed: return True, 'assertion failed natively'
-    if panicked and h.panic_mode == 'obligation': return True, 'panic natively: ' + panicked
-    return False, 'native run did not fail this assertion (failed: %s, panic: %s)' % (failed, panicked)
+    why = ''
+    has_raw = '"raw"' in json.dumps(v['script'])
+    for salt in range(6 if has_raw else 1):
+        failed, panicked, out = replay(h, v['script'], outdir, all_harnesses, salt=salt)
+        if 'VERIF-REPLAY-DONE' not in out and not panicked:
+            return False, 'replay did not run: ' + out[-600:]
+        if v['kind'] == 'panic':
+            if panicked is not None: return True, 'panic reproduced: %s' % panicked
+            why = 'no panic natively'
+        elif v['label'] in failed: return True, 'assertion failed natively' + (' (filler salt %d)' % salt if salt else '')
+        elif panicked and h.panic_mode == 'obligation': return True, 'panic natively: ' + panicked
+        else: why = 'native run did not fail this assertion (failed: %s, panic: %s)' % (failed, panicked)
+        if 'VERIF-ASSUME-FAILED' not in out and salt >= 2 and not h.salt_retries: break
+    return False, why
 
 # ----------------------------------------------------------------------------- property check
 def func_hashes(ir, names):
